@@ -115,6 +115,7 @@ def check_deployment(R, label, dc, fn_node, modglobals):
     rx = {'acc': acc_rx, 'nonspecial': M.nonspecial_scheme_lang(), 'lands_evil': M.browser_lands_lang(evil, bscheme, bhost),
           'ascii_print': st_(s_([(0x21, 0x7e)])), 'lower_start': c_(s_([(97, 122)]), A_()),
           'canon': a_(*[c_(l_(f'https://{h}'), o_(c_(s_('/?#'), A_()))) for h in own])}
+    rx['nshost_evil'] = M.nonspecial_host_lang(evil)
     for h in own:
         rx['lands:' + h] = M.browser_lands_lang(h, bscheme, bhost)
         rx['nshost:' + h] = M.nonspecial_host_lang(h)
@@ -210,13 +211,23 @@ def check_deployment(R, label, dc, fn_node, modglobals):
     # ---- the property ------------------------------------------------------------------------------------
     ascii_print = Z['ascii_print']
 
-    def decide(name, z, cls, describe):
+    def decide(name, z, cls, describe, prefer=None):
         # prefer a printable-ASCII witness (the state machine decides those completely); then any string.
         # A witness on which the browser's parse fails (no navigation) or is outside the state machine is not a
         # counterexample: it is excluded and the query repeated a few times; if nothing definite turns up the
         # obligation is left not discharged.
         total = 0.0
         seen = []
+        if prefer is not None:
+            # first look for a counterexample that certainly lands on a fixed foreign host: the state machine decides it
+            r, w, dt = member(RP(z3.Intersect(z, prefer, ascii_print)))
+            total += dt
+            if r == 'sat':
+                st = describe(w)
+                if st is not None:
+                    R.ob(name, st, total, {'witness': w}, nontrivial=True)
+                    return
+                seen.append(w)
         for _ in range(6):
             zz = z
             for x in seen:
@@ -257,10 +268,10 @@ def check_deployment(R, label, dc, fn_node, modglobals):
 
     decide(f'{label}: accepted ∧ special-or-relative ⇒ browser lands on an own host',
            z3.Intersect(acc, z3.Complement(nonspecial), z3.Complement(lands_any)), 'redirect-to-foreign-host',
-           foreign('redirect-to-foreign-host'))
+           foreign('redirect-to-foreign-host'), prefer=lands_evil)
     decide(f'{label}: accepted ∧ non-special scheme ⇒ URL authority is an own host',
            z3.Intersect(acc, nonspecial, z3.Complement(ns_host_any)), 'nonspecial-scheme-foreign-authority',
-           foreign('nonspecial-scheme-foreign-authority'))
+           foreign('nonspecial-scheme-foreign-authority'), prefer=Z['nshost_evil'])
 
     def rejected_canonical(w):
         if real_accepts(dc, w):
